@@ -290,7 +290,7 @@ func init() {
 	eng.Register(&eng.Scenario{
 		Name: "lifo-2x2-unbounded", Props: []string{"C12"}, MustFinish: true, ObsNames: obs,
 		Doc:   "AtomicLIFO: 2 threads x 2 operations, ALL interleavings of the atomic loads/CASes (preemption bound larger than the number of points)",
-		Quick: eng.Bounds{PB: 40}, Thorough: eng.Bounds{PB: 40},
+		Quick: eng.Bounds{PB: 40, Cap: 60000000}, Thorough: eng.Bounds{PB: 40, Cap: 60000000},
 		Body: lifoBody(2, 2), Post: linPost(lifoModel, "C12.lifo-linearizable"),
 	})
 	eng.Register(&eng.Scenario{
